@@ -64,7 +64,11 @@ type prog struct {
 	cancels  map[int]context.CancelFunc
 	nextID   int
 	errBoom  error
+	variant  int // derived from the program: selects optional configuration
 }
+
+// seedHalf is true for about half of the programs (a pure function of the program).
+func (p *prog) seedHalf() bool { return p.variant%2 == 1 }
 
 // block runs f with a context that the monitor cancels once every goroutine of
 // the program is finished or inside a possibly blocking call.
@@ -497,6 +501,20 @@ func keyedOps(p *prog, rc bool) ([]func(g, a int), func()) {
 		keyed.WithBackoff[int, int](func(int) cbackoff.BackOff { return cbackoff.NewConstantBackOff(100 * time.Microsecond) }),
 		keyed.WithExitCb[int, int](func(int, keyed.Routine, int, error) { exits.Add(1) }),
 	}
+	if p.seedHalf() {
+		// several exit callbacks, the first of them slow: the later ones run well after the
+		// instance's bookkeeping section
+		lgx := logrus.New()
+		lgx.SetOutput(io.Discard)
+		opts = append(opts,
+			keyed.WithExitCb[int, int](func(int, keyed.Routine, int, error) { runtime.Gosched(); exits.Add(1) }),
+			keyed.WithExitLogger[int, int](logrus.NewEntry(lgx)),
+			keyed.WithExitCb[int, int](func(_ int, _ keyed.Routine, _ int, err error) {
+				if err != nil {
+					exits.Add(1)
+				}
+			}))
+	}
 	cond := func(a int) []func(int, int) bool {
 		switch a % 3 {
 		case 0:
@@ -575,6 +593,18 @@ func routineOps(p *prog, state bool) ([]func(g, a int), func()) {
 	opts := []routine.Option{
 		routine.WithExitCb(func(error) { exits.Add(1) }),
 		routine.WithBackoff(cbackoff.NewConstantBackOff(100 * time.Microsecond)),
+	}
+	if p.seedHalf() {
+		lgx := logrus.New()
+		lgx.SetOutput(io.Discard)
+		opts = append(opts,
+			routine.WithExitCb(func(error) { runtime.Gosched(); exits.Add(1) }),
+			routine.WithExitLogger(logrus.NewEntry(lgx)),
+			routine.WithExitCb(func(err error) {
+				if err != nil {
+					exits.Add(1)
+				}
+			}))
 	}
 	ctxA, cancelA := context.WithCancel(p.root)
 	ctxB, cancelB := context.WithCancel(p.root)
@@ -888,6 +918,11 @@ func run(t *testing.T, cs Case) *ev.Verdict {
 	sched.Guard(func() {
 		root, cancel := context.WithCancel(context.Background())
 		p := &prog{root: root, n: len(cs.G), cancels: map[int]context.CancelFunc{}, errBoom: errors.New("boom")}
+		for _, g := range cs.G {
+			for _, op := range g {
+				p.variant += op.A
+			}
+		}
 		ops, teardown := td.setup(p)
 		done := make(chan struct{})
 		go p.monitor(done)
